@@ -17,6 +17,9 @@ func coreC02(tier string) []RunSpec {
 			out = append(out, RunSpec{Profile: "core:" + kind, Params: map[string]int{"force": mwKind(kind), "fee": fi}})
 		}
 	}
+	for k := 0; k < 3; k++ {
+		out = append(out, RunSpec{Profile: "core:forged-invoice-same-hash", Params: map[string]int{"force": mwKind("adversarial"), "advmode": 9, "fee": 0, "k": k}})
+	}
 	return out
 }
 
@@ -42,6 +45,7 @@ func runC02(rc *RunCtx) {
 		m.User.Fund("A", 300)
 	})
 	forced, isForced := rc.Spec.Params["force"]
+	m.forceAdvMode = rc.P("advmode", 0)
 	// weights:       fund swap melt resolve replay dup race checkstate restore restart clock adv internal rotate mintrace
 	weights := []int{2, 5, 5, 2, 0, 0, 1, 0, 0, 2, 0, 4, 2, 1, 2}
 	// a quarter of the random runs additionally inject storage errors into ordinary operations
